@@ -40,6 +40,10 @@ Verdict ==
                                   \A i \in DOMAIN T.obs.copies : Restrict(T.obs.copies[i]) = Expected),
          C14_OnCoarseNode |-> (err = "" /\ ok /\ T.site = "graph") =>
                                   \A i \in DOMAIN T.obs.coarse : Restrict(T.obs.coarse[i]) = Expected,
+         \* an annotation belongs to its own atom: a bracket atom WITHOUT annotation written later in the same fragment has the defaults
+         C14_OnItsAtomOnly |-> (err = "" /\ ok /\ "plain" \in DOMAIN T.obs) =>
+                                  \A i \in DOMAIN T.obs.plain :
+                                     Restrict(T.obs.plain[i]) = {a \in BindAttrs(<<>>, D) : a[1] \in KeysOfInterest},
          C14_Defaults |-> (err = "" /\ ok) => \A p \in ParamSet(D) : D.default[p] # None =>
                                   \A i \in DOMAIN T.obs.copies : \E a \in Restrict(T.obs.copies[i]) : a[1] = D.rename[p],
          C20_Raises |-> (err # "") => T.obs.outcome = "exc:" \o err,
